@@ -199,6 +199,13 @@ example : (run (fun _ => true) exampleLines).calls = [33, 62] := by
   rw [callback_positions_exact clsAny exampleDoc (by decide +kernel) _ exampleLines exampleLines_fst (fun _ _ => rfl)]
   decide +kernel
 
+/-- the one-pass computation the driver evaluates for `callPositions` (running totals of the line lengths,
+indices accumulated spectrum by spectrum) is `callPositions`, for every document and every list of lengths -/
+theorem callPositionsFast_eq (cls : String → Bool) (d : Doc) (lens : List Nat) :
+    callPositionsFast cls d lens = callPositions cls d lens := callPositionsFast_eq' cls d lens
+
+example : callPositionsFast clsAny exampleDoc (exampleLines.map Prod.snd) = [33, 62] := by decide +kernel
+
 /-- ANY callback, also one that returns False: the positions it was invoked with are an initial
 segment of the exact positions.  With `callback_false_aborts` (the False invocation is the last one)
 an import aborted at invocation `j` made exactly the invocations `0 … j`, each at its exact position. -/
